@@ -28,7 +28,8 @@ import (
 	"fmt"
 	"io"
 	"math/rand"
-	"net/http/httptest"
+	"net"
+	"net/http"
 	"os"
 	"path"
 	"sort"
@@ -274,7 +275,7 @@ func genSpec(r *rand.Rand) spec {
 		switch x := r.Intn(100); {
 		case x < 40:
 			// (shadow refuses non-seekable sources by design; on s3 every plain-reader upload makes the SDK allocate a 5 MB part buffer)
-			o = op{Kind: "upload", Name: r.Intn(s.uploadable), Seed: r.Int63(), NoSeek: !strings.HasPrefix(s.Kind, "shadow") && (s.Kind == "s3" && r.Intn(15) == 0 || s.Kind != "s3" && r.Intn(5) == 0)}
+			o = op{Kind: "upload", Name: r.Intn(s.uploadable), Seed: r.Int63(), NoSeek: !strings.HasPrefix(s.Kind, "shadow") && (s.Kind == "s3" && r.Intn(40) == 0 || s.Kind != "s3" && r.Intn(5) == 0)}
 			switch y := r.Intn(100); {
 			case y < 4:
 				o.Size = 0
@@ -352,31 +353,44 @@ func digest(b []byte) string {
 	return fmt.Sprintf("%d:%x..%s", len(b), b[:8], gen.SHA256Hex(b)[:12])
 }
 
-// env is the testfs server of one history (testfs and shadow histories only):
-// a real testfs.Server behind a real HTTP listener, with its own directory,
-// removed when the history ends.
+// env is a worker's testfs server: a real testfs.Server behind a real HTTP
+// listener. It is replaced (and its directory removed) every 200 histories so
+// that the directory kraken's testfs.NewServer keeps under /tmp stays small.
+// (A plain http.Server, not httptest.Server: closing an httptest.Server closes
+// the idle connections of http.DefaultTransport, which the other workers'
+// testfs clients are using.)
 type env struct {
 	t      *testing.T
 	server *testfs.Server
-	hts    *httptest.Server
+	srv    *http.Server
 	addr   string
+	uses   int
 }
 
 func (e *env) start() {
-	if e.server != nil {
+	if e.server != nil && e.uses < 200 {
+		e.uses++
 		return
 	}
+	e.close()
+	ln, err := net.Listen("tcp", "127.0.0.1:0")
+	if err != nil {
+		e.t.Fatalf("listen: %v", err)
+	}
 	e.server = testfs.NewServer()
-	e.hts = httptest.NewServer(e.server.Handler())
-	e.addr = strings.TrimPrefix(e.hts.URL, "http://")
+	e.srv = &http.Server{Handler: e.server.Handler()}
+	e.addr = ln.Addr().String()
+	e.uses = 1
+	go e.srv.Serve(ln)
 }
 
 func (e *env) close() {
 	if e.server == nil {
 		return
 	}
-	e.hts.Close()
+	e.srv.Close()
 	e.server.Cleanup() // testfs.NewServer keeps its files under /tmp
+	e.server = nil
 }
 
 // build creates the real client for a history. dirTag prefixes roots / bucket
@@ -437,21 +451,21 @@ func TestC37(t *testing.T) {
 	os.Unsetenv("AWS_CA_BUNDLE") // s3backend.NewClient builds an SDK session of its own; nothing here talks TLS
 
 	const workers = 12
-	n := run.N(2400, 48000)
+	n := run.N(1200, 24000)
 	var wg sync.WaitGroup
 	for k := 0; k < workers; k++ {
 		wg.Add(1)
 		go func(k int) {
 			defer wg.Done()
+			e := &env{t: t}
+			defer e.close()
 			for ci := k; ci < n; ci += workers {
 				caseID := fmt.Sprintf("hist-%d", ci)
 				if rc := run.ReplayCase(); rc != "" && rc != caseID {
 					continue
 				}
 				s := genSpec(run.Rand(caseID))
-				e := &env{t: t}
 				runHistory(run, e, caseID, &s)
-				e.close()
 				run.Count("histories_"+s.Kind, 1)
 				if run.WantSample() && ci%331 == 0 {
 					c := s
